@@ -136,6 +136,26 @@ def instances(r, n):
                 out.append(_adapter_instance(name, ad, high_mux_cfg(r)))
     for _ in range(n // 2):
         out.append(hostile_instance(r))
+    out += fixed_instances()
+    return out
+
+
+def fixed_instances():
+    """A small deterministic family of layouts known to be delicate (independent of the seed)."""
+    ad = csrmux.Adapter()
+    out = []
+    for aw, base in ((4, 1), (8, 0x41), (11, 0x400), (13, 0x1001), (16, 0x8000), (16, 0xfff0)):
+        for ov in (0, 1, None):
+            # two adjacent 3-chunk registers, not naturally aligned: chunk aliasing is inherent
+            regs = [{"start": base, "stop": base + 3, "width": 24, "r": 1, "w": 1},
+                    {"start": base + 3, "stop": base + 6, "width": 20, "r": 1, "w": 1}]
+            out.append(_adapter_instance("csr.Multiplexer", ad, {"dw": 8, "aw": aw, "al": 0, "regs": regs, "overlaps": ov}))
+    # access-mode asymmetry: more write-only than readable registers sharing a chunk
+    for ov in (None, 0, 2):
+        regs = [{"start": 0, "stop": 1, "width": 8, "r": 1, "w": 0}] + \
+               [{"start": k, "stop": k + 1, "width": 8, "r": 0, "w": 1} for k in (1, 2, 3)] + \
+               [{"start": 5, "stop": 7, "width": 9, "r": 0, "w": 1}]
+        out.append(_adapter_instance("csr.Multiplexer", ad, {"dw": 8, "aw": 3, "al": 0, "regs": regs, "overlaps": ov}))
     return out
 
 
